@@ -32,6 +32,21 @@ ArgLists == << <<>>, <<I(1)>>, <<I(1), I(2)>>, <<S(<<"a">>), S(<<"b">>)>>, <<S(<
               <<I(1), I(2), I(3)>>, <<I(1), I(2), I(3), I(4)>>, <<I(5), I(4), I(3), I(2), I(1)>>, <<I(1), I(2), I(3), I(4), I(5), I(6), I(7)>>, <<I(1), I(2), S(<<"x">>)>> >>
 CallSteps == << NameS("M0"), NameS("M1"), NameS("MV"), NameS("PM0"), NameS("Fn"), NameS("F"), NameS("nope") >>
 
+\* subscripts that are names themselves (the harness writes them out: rmap[fm1("a")]): failing ones, empty ones, usable ones
+SubPaths == << [root |-> "fm1", rootCall |-> TRUE, rootArgs |-> <<S(<<"a">>)>>, steps |-> <<>>],          \* wrong argument type: error
+               [root |-> "fme", rootCall |-> TRUE, rootArgs |-> <<>>, steps |-> <<>>],                     \* (T, error) with an error
+               [root |-> "fsum", rootCall |-> TRUE, rootArgs |-> <<I(1), S(<<"x">>)>>, steps |-> <<>>],     \* variadic, wrong type
+               [root |-> "rint", rootCall |-> FALSE, rootArgs |-> <<>>, steps |-> <<NoCall(IdxS(0))>>],     \* index on a scalar
+               [root |-> "rint", rootCall |-> FALSE, rootArgs |-> <<>>, steps |-> <<NoCall(NameS("k"))>>],  \* field on a scalar
+               [root |-> "rstr", rootCall |-> TRUE, rootArgs |-> <<>>, steps |-> <<>>],                    \* not a function
+               [root |-> "fm1", rootCall |-> TRUE, rootArgs |-> <<I(0)>>, steps |-> <<>>],                  \* 1
+               [root |-> "rmap", rootCall |-> FALSE, rootArgs |-> <<>>, steps |-> <<NoCall(NameS("k"))>>],  \* "mv"
+               [root |-> "rnope", rootCall |-> FALSE, rootArgs |-> <<>>, steps |-> <<>>],                  \* the empty value
+               [root |-> "fcat", rootCall |-> TRUE, rootArgs |-> <<S(<<"k">>), S(<<>>)>>, steps |-> <<>>] >> \* "k"
+SubP(i) == [t |-> "subp", pname |-> SubPaths[i].root,
+            p |-> [val |-> IF SubPaths[i].root \in DOMAIN Roots THEN Roots[SubPaths[i].root] ELSE Nil,
+                   rootArgs |-> SubPaths[i].rootArgs, rootCall |-> SubPaths[i].rootCall, steps |-> SubPaths[i].steps]]
+
 VARIABLES root, rootCall, rootArgs, steps, go
 Init ==
   /\ go = FALSE
@@ -44,6 +59,11 @@ Init ==
                 \/ \E a \in 1..Len(PlainSteps), b \in 1..Len(PlainSteps) :
                      /\ PlainSteps[a].t # "sub"          \* the grammar admits a subscript only as the last step of a name
                      /\ steps = <<NoCall(PlainSteps[a]), NoCall(PlainSteps[b])>>
+          \/ \* a subscript that is a name itself, directly on the root or after one step
+             /\ rootCall = FALSE /\ rootArgs = <<>>
+             /\ \E q \in 1..Len(SubPaths) :
+                  \/ steps = <<NoCall(SubP(q))>>
+                  \/ \E a \in {6, 8, 9, 10, 12} : steps = <<NoCall(PlainSteps[a]), NoCall(SubP(q))>>       \* after .k .l .st .z .P
           \/ \* a call on the root: f(args)
              /\ rootCall = TRUE /\ steps = <<>> /\ \E a \in 1..Len(ArgLists) : rootArgs = ArgLists[a]
           \/ \* a call on a step: root.M1(args), root.st.M1(args)
@@ -62,7 +82,7 @@ RECURSIVE OnString(_, _, _)
 OnString(v, sts, i) ==
   IF i > Len(sts) THEN FALSE
   ELSE LET w == IF v.k = "ptr" /\ v.l # <<>> THEN v.l[1] ELSE v IN
-       IF sts[i].t \in {"idx", "sub"} /\ w.k = "str" THEN TRUE
+       IF sts[i].t \in {"idx", "sub", "subp"} /\ w.k = "str" THEN TRUE
        ELSE LET r == Resolve(v, <<>>, FALSE, <<sts[i]>>) IN IF r.res # "val" THEN FALSE ELSE OnString(r.v, sts, i + 1)
 EmitVec == go => PrintT(ToJson([m |-> "PongoResolve", root |-> root, onstring |-> (LET r0 == Resolve(RootVal, rootArgs, rootCall, <<>>) IN r0.res = "val" /\ OnString(r0.v, steps, 1)), rootCall |-> rootCall, rootArgs |-> rootArgs, steps |-> steps,
                                 res |-> Res.res, v |-> Res.v]))
